@@ -25,6 +25,10 @@ def check_groupby_sorted(ctx, res: Result, dotted: str, rule="G-GROUPBY"):
                 skey = next((k.value for k in it.keywords if k.arg == "key"), None)
                 same = (skey is None and key is None) or (skey is not None and key is not None and norm(skey) == norm(key)) or (skey is None and key is not None and isinstance(key, ast.Lambda) and isinstance(key.body, ast.Subscript) and isinstance(key.body.slice, ast.Constant) and key.body.slice.value == 0)
                 res.add(rule, f, norm(n)[:140], "sorted-input", "ok" if same else "unknown", "" if same else "the input is sorted by another key than the grouping key", loc(v.fi, n))
+            elif getattr(v.kind(n.args[0]), "sorted", False) and (key is None or (isinstance(key, ast.Lambda) and isinstance(key.body, ast.Subscript) and isinstance(key.body.slice, ast.Constant) and key.body.slice.value == 0)):
+                res.ok(rule, f, norm(n)[:140], "sorted-input", loc(v.fi, n))
+            elif isinstance(it, ast.Name) and it.id in {a.arg for a in v.fi.params}:
+                res.unknown(rule, f, norm(n)[:140], "sorted-input", "the grouped iterable is a parameter: whether the callers hand it over sorted is not decided", loc(v.fi, n))
             else:
                 res.violation(rule, f, norm(n)[:140], "sorted-input", f"groupby runs over `{norm(it)[:80]}`, which is not sorted by the grouping key: records with the same key that are not adjacent form several groups (a later group overwrites / duplicates an earlier one)", loc(v.fi, n))
     if not found:
@@ -48,3 +52,125 @@ def check_fancy_augassign(ctx, res: Result, dotted: str, rule="N-FANCYAUG"):
                 res.violation(rule, f, norm(n), "repeated-indices", f"`{norm(n.target)}` is indexed with arrays: `{type(n.op).__name__.lower()}=` through fancy indexing writes each repeated index pair once instead of accumulating (use np.add.at)", loc(v.fi, n))
     if not found:
         res.ok(rule, f, "no augmented assignment through array indices", "scan", loc(v.fi, v.fi.node))
+
+
+def check_groupby_in_file(ctx, res: Result, relpath: str, rule="G-GROUPBY"):
+    """G-GROUPBY over every function of one source file (one `scan` obligation when the file has no groupby at all)."""
+    n = 0
+    for q, fi in sorted(ctx.prog.functions.items()):
+        if fi.module.relpath != relpath:
+            continue
+        if any(isinstance(x, ast.Call) and norm(x.func) in ("groupby", "itertools.groupby") for x in walk_no_nested(fi.node)):
+            n += 1
+            check_groupby_sorted(ctx, res, fi, rule=rule)
+    if not n:
+        res.ok(rule, relpath, "no itertools.groupby", "scan", relpath)
+
+
+def _break_conditions(v, brk, loop):
+    """tests (as written) on which reaching `brk` inside `loop` depends"""
+    tests = []
+    cur = brk
+    while cur is not None and cur is not loop:
+        par = v.parent.get(id(cur))
+        if isinstance(par, ast.If) and cur is not par.test:
+            tests.append(par.test)
+            # an `elif` arm also depends on the failed tests before it
+        cur = par
+    return tests
+
+
+def check_scan_break(ctx, res: Result, dotted, filter_names=("order", "size", "up_to"), rule="B-SCANBREAK"):
+    """A loop that collects the records matching a window AND a size / order filter may stop early on the sort key only: a
+    `break` whose condition involves the size filter stops the scan at the first record of another size and drops every
+    later match."""
+    v = ctx.view(dotted)
+    f = v.fi.short
+    local_defs = {n.name: n for n in ast.walk(v.fi.node) if isinstance(n, (ast.FunctionDef, ast.Lambda)) and n is not v.fi.node and hasattr(n, "name")}
+    found = 0
+
+    def mentions_filter(e, depth=0):
+        e = v.inline(e)
+        for x in ast.walk(e):
+            if isinstance(x, ast.Name) and x.id in filter_names:
+                return True
+            if isinstance(x, ast.Call) and isinstance(x.func, ast.Name) and x.func.id in local_defs and depth < 2:
+                d = local_defs[x.func.id]
+                if any(isinstance(y, ast.Name) and y.id in filter_names for y in ast.walk(d)):
+                    return True
+        return False
+
+    for lp in ast.walk(v.fi.node):
+        if not isinstance(lp, (ast.For, ast.While)):
+            continue
+        collects = any(isinstance(x, ast.Call) and isinstance(x.func, ast.Attribute) and x.func.attr in ("append", "add") for x in ast.walk(lp))
+        if not collects:
+            continue
+        for b in ast.walk(lp):
+            if not isinstance(b, ast.Break) or v.enclosing(b, (ast.For, ast.While)) is not lp:
+                continue
+            found += 1
+            tests = _break_conditions(v, b, lp)
+            bad = [t for t in tests if mentions_filter(t)]
+            res.add(rule, f, norm(tests[0])[:120] if tests else "break", "break-on-sort-key-only", "violation" if bad else "ok", f"the collecting scan stops (`break`) on a condition that involves the order/size filter (`{norm(bad[0])[:80]}`): after the first record of another size every later matching record is dropped" if bad else "", loc(v.fi, b))
+    if not found:
+        res.ok(rule, f, "no early exit from a collecting scan", "scan", loc(v.fi, v.fi.node))
+
+
+def check_vectorize_otypes(ctx, res: Result, relpath: str, rule="N-VECTYPE"):
+    """np.vectorize(f) without `otypes` takes the output dtype from the FIRST element: when f can return an int literal on
+    one path and a float on another, an array whose first element takes the int path is truncated to integers."""
+    n = 0
+    for q, fi in sorted(ctx.prog.functions.items()):
+        if fi.module.relpath != relpath:
+            continue
+        for c in walk_no_nested(fi.node):
+            if not (isinstance(c, ast.Call) and norm(c.func) in ("np.vectorize", "numpy.vectorize") and c.args):
+                continue
+            n += 1
+            if any(kw.arg == "otypes" for kw in c.keywords):
+                res.ok(rule, fi.short, norm(c)[:100], "otypes", loc(fi, c))
+                continue
+            tgt = c.args[0]
+            cand = None
+            if isinstance(tgt, ast.Name):
+                cand = fi.module.functions.get(tgt.id) if hasattr(fi.module, "functions") else None
+                if cand is None:
+                    cand = next((g for g in ctx.prog.functions.values() if g.module is fi.module and g.name == tgt.id and g.cls is None), None)
+            if cand is None:
+                res.unknown(rule, fi.short, norm(c)[:100], "otypes", "the vectorised function was not resolved", loc(fi, c))
+                continue
+            rets = [r.value for r in walk_no_nested(cand.node) if isinstance(r, ast.Return) and r.value is not None]
+            ints = [r for r in rets if isinstance(r, ast.Constant) and isinstance(r.value, int) and not isinstance(r.value, bool)]
+            other = [r for r in rets if not isinstance(r, ast.Constant)]
+            if ints and other:
+                res.violation(rule, fi.short, norm(c)[:100], "otypes", f"{cand.short} returns the int literal `{norm(ints[0])}` on one path and a computed float on another; np.vectorize without otypes takes the dtype of the first element, so an array starting with that case is truncated to integers", loc(cand, ints[0]))
+            else:
+                res.ok(rule, fi.short, norm(c)[:100], "otypes", loc(fi, c))
+    if not n:
+        res.ok(rule, relpath, "no np.vectorize", "scan", relpath)
+
+
+def check_self_shift_recurrence(ctx, res: Result, dotted, rule="N-RECUR"):
+    """`X[1:] = g(X[:-1])` evaluates the right-hand side before anything is written: a recurrence X[d] = g(X[d-1]) written as
+    one slice assignment reads the OLD rows.  Reported: a slice assignment whose right-hand side combines a differently
+    sliced read of the same array with other terms (a plain shift `X[1:] = X[:-1]` is not a recurrence)."""
+    v = ctx.view(dotted)
+    f = v.fi.short
+    found = 0
+    for n in walk_no_nested(v.fi.node):
+        if not (isinstance(n, ast.Assign) and len(n.targets) == 1 and isinstance(n.targets[0], ast.Subscript)):
+            continue
+        t = n.targets[0]
+        tsl = t.slice.elts[0] if isinstance(t.slice, ast.Tuple) and t.slice.elts else t.slice
+        if not isinstance(tsl, ast.Slice):
+            continue
+        base = norm(t.value)
+        for r in ast.walk(n.value):
+            if isinstance(r, ast.Subscript) and norm(r.value) == base:
+                rsl = r.slice.elts[0] if isinstance(r.slice, ast.Tuple) and r.slice.elts else r.slice
+                if isinstance(rsl, ast.Slice) and norm(rsl) != norm(tsl) and not (isinstance(n.value, ast.Subscript) and n.value is r):
+                    found += 1
+                    res.violation(rule, f, norm(n)[:140], "sequential", f"`{norm(t)}` is assigned from `{norm(r)}` of the same array in one slice operation: the right-hand side is evaluated before any row is written, so row d is computed from the OLD row d-1 instead of the freshly updated one (the recursion has to run degree by degree)", loc(v.fi, n))
+    if not found:
+        res.ok(rule, f, "no vectorised self-recurrence", "scan", loc(v.fi, v.fi.node))
